@@ -220,12 +220,43 @@ PROPS = {
         "assumptions": A_RING + ["EDWARDS_D treated as an opaque constant symbol"], "trusted": T_RING,
         "not_covered": ["component_mul_generator layout and canonicity lemma", "group law"],
     },
-    "C15": {
+    "C17": {
+        "v_units": ["decoders.py", "compress.py"],
+        "claim": "totality of the length-field / section parsing for ALL byte strings of ANY length (no bound): Verifier::try_from_bytes and "
+                 "Prover::try_from_bytes never index out of bounds and never overflow (48-byte header, checked sums, required_len guard before "
+                 "every slice); PackedCircuitReader::{take, unpack_array_len} and packed_size_limit likewise.",
+        "technique": "contract-based deductive verification: Verus on the real decoders annotated in place (overlay), callee wrappers for "
+                     "dependency decoders",
+        "level_note": "Assumed (callee wrappers, listed in the evidence): VerifierKey/OpeningKey/ProverKey::from_slice, CommitKey::from_raw_var_bytes, "
+                      "Verifier::new / Prover::new are total; u64::from_be_bytes; AsRef<[u8]>. NOT covered: validity of accepted points, allocation "
+                      "bounds of the callee decoders, Proof::from_bytes, PublicParameters::from_slice, CompressedCircuit::from_bytes.",
+        "design_ref": "DESIGN.md §4 C17",
+        "assumptions": A_VERUS,
+        "trusted": T_VERUS,
+        "not_covered": ["point validity of accepted data", "ProverKey::from_slice, CommitKey decoders, Proof::from_bytes, CompressedCircuit::from_bytes bodies"],
+    },
+    "C20": {
         "v_units": ["capacity.py"],
-        "claim": "capacity arithmetic of the compressed route: Compiler::max_constraints, CommitKey::{max_degree,truncate}, "
-                 "PublicParameters::max_degree against their specs for all usize inputs.",
+        "claim": "degree rule only: CommitKey::truncate(d) (Err(TruncatedDegreeIsZero) for 0, Err(TruncatedDegreeTooLarge) beyond the key, "
+                 "else the prefix of d+1 powers, with the documented d == 1 quirk), max_degree == len - 1, PublicParameters::trim(n) keeps "
+                 "n + 7 powers iff n + 6 <= max_degree, check_commit_degree_is_within_bounds: Err(PolynomialDegreeTooLarge) iff degree > max_degree.",
         "technique": "contract-based deductive verification: Verus on the real functions annotated in place (overlay)",
-        "level_note": "Only the capacity arithmetic so far. Not decided: byte identity of the keys of the two routes.",
+        "level_note": "NOT decided: linearity of commitments, consistency of generated parameters, correctness of openings (pairing algebra).",
+        "design_ref": "DESIGN.md §4 C20",
+        "assumptions": A_VERUS, "trusted": T_VERUS,
+        "not_covered": ["setup, commit linearity, open/verify/batch_check algebra"],
+    },
+    "C15": {
+        "v_units": ["capacity.py", "compress.py"],
+        "claim": "(a) the two routes accept exactly the same capacities: Compiler::max_constraints(pp) == pow2_floor(max_degree - 6) - 6 "
+                 "(saturating), compile_with_composer computes n = npot(c + 6) and fails whenever trim(n) fails, PublicParameters::trim(n) "
+                 "succeeds iff n + 6 <= max_degree, and LEMMA max_constraints_exact: for all c >= 1 and all capacities, "
+                 "c <= max_constraints <=> npot(c + 6) + 6 <= max_degree; (b) bounded decompression: packed_size_limit == 857*mc + 30 or Err on "
+                 "overflow; PackedCircuitReader::{take, unpack_array_len, is_empty} never read out of bounds, never grow the remaining input and "
+                 "reject every non-array tag.",
+        "technique": "contract-based deductive verification: Verus on the real functions annotated in place (overlay)",
+        "level_note": "Not decided: byte identity of the keys of the two routes (from_composer / from_bytes reconstruction over hashbrown); "
+                      "CompressedCircuit::from_bytes / unpack_bounded / validate_indices bodies are not yet under contract.",
         "design_ref": "DESIGN.md §4 C15",
         "assumptions": A_VERUS + ["usize::leading_zeros, <[T]>::to_vec contracts (std)"],
         "trusted": T_VERUS,
